@@ -1191,7 +1191,8 @@ def main():
              ('fx_dtor', lambda: do_effects('LidarDriverImpl', '~LidarDriverImpl', S_IMPL, name='dtor')),
              ('fx_packetGet', lambda: do_effects('LidarDriverImpl', 'packetGet', S_IMPL)),
              ('fx_packetPut', lambda: do_effects('LidarDriverImpl', 'packetPut', S_IMPL)),
-             ('fx_internalProcessPacket', lambda: do_effects('LidarDriverImpl', 'internalProcessPacket', S_IMPL))]
+             ('fx_internalProcessPacket', lambda: do_effects('LidarDriverImpl', 'internalProcessPacket', S_IMPL)),
+             ('fx_runPacketCallBack', lambda: do_effects('LidarDriverImpl', 'runPacketCallBack', S_IMPL))]
     S_SQ = 'rs_driver/utility/sync_queue.hpp'
     jobs += [('fx_sq_push', lambda: do_effects('SyncQueue', 'push', S_SQ)),
              ('fx_sq_pop', lambda: do_effects('SyncQueue', 'pop', S_SQ)),
